@@ -79,11 +79,29 @@ func (e *Encoder) callCommon(instr ssa.Instruction, cm *ssa.CallCommon, res ssa.
 	if v, ok := e.stdlibCall(callee, cm, args, resT, st, pc); ok {
 		return v
 	}
+	if emptyBody(callee) {
+		return Val{T: resT} // e.g. the generated, empty Default() methods
+	}
 	e.havocAll(st, "call "+callee.String())
 	v := e.freshVal("call", resT)
 	e.assumeWT(v, pc, st)
 	_ = c
 	return v
+}
+
+// emptyBody: the callee's built body is a single `return` with no results (no effect at all).
+func emptyBody(fn *ssa.Function) bool {
+	if len(fn.Blocks) != 1 || fn.Signature.Results().Len() != 0 {
+		return false
+	}
+	for _, in := range fn.Blocks[0].Instrs {
+		switch in.(type) {
+		case *ssa.Return, *ssa.DebugRef:
+		default:
+			return false
+		}
+	}
+	return true
 }
 
 func (e *Encoder) siteName(kind, what string) string {
